@@ -24,6 +24,33 @@ instance : Div CQ := ⟨fun a b =>
   ⟨(a.re * b.re + a.im * b.im) / d, (a.im * b.re - a.re * b.im) / d⟩⟩
 instance : NatCast CQ := ⟨fun n => ⟨(n : Rat), 0⟩⟩
 
+/-- `2^e` as a rational -/
+def pow2 (e : Int) : Rat :=
+  if e ≥ 0 then ((2 ^ e.toNat : Nat) : Rat) else 1 / ((2 ^ (-e).toNat : Nat) : Rat)
+
+/-- the largest `e` with `2^e ≤ |q|` (`q ≠ 0`) -/
+def ilog2 (q : Rat) : Int :=
+  let e0 : Int := (Nat.log2 q.num.natAbs : Int) - (Nat.log2 q.den : Int)
+  if pow2 e0 ≤ (if q < 0 then -q else q) then e0 else e0 - 1
+
+/-- IEEE binary32 rounding (nearest, ties to even; subnormals; no overflow handling: the harness
+keeps values far below `2^128`) of an exact rational: what `ndarray.astype(float32)` stores -/
+def round32 (q : Rat) : Rat :=
+  if q = 0 then 0 else
+  let e := max (ilog2 q) (-126)
+  let quantum := pow2 (e - 23)
+  ((roundHE (q / quantum) : Int) : Rat) * quantum
+
+/-- numpy's conversion of a (complex) value to a dtype: real dtypes keep the real part, single
+precision rounds both parts; `i64` is never the target of a lossy conversion in the model -/
+instance : DCast CQ := ⟨fun d z =>
+  match d with
+  | .c128 => z
+  | .f64 => ⟨z.re, 0⟩
+  | .c64 => ⟨round32 z.re, round32 z.im⟩
+  | .f32 => ⟨round32 z.re, 0⟩
+  | .i64 => z⟩
+
 def getCQ (j : Json) : Except String CQ :=
   match j with
   | .arr a =>
@@ -106,6 +133,20 @@ def parseOp (j : Json) : Except String (Op CQ) := do
   | "writeCell" => do pure (.writeCell (← fldN j "h") (← fldN j "p") (← getCQ (← fld j "v")))
   | "setGhosts" => do pure (.setGhosts (← fldN j "h") (← getL getOptCQ (← fld j "vals")))
   | "component" => do pure (.component (← fldN j "h") (← fldN j "c"))
+  | "tcomponent" => do pure (.tcomponent (← fldN j "h") (← fldN j "i") (← fldN j "j"))
+  | "applyOperator" => do
+    let out : Option Nat := match fldOpt j "out" with
+      | some (.num n) => if n.exponent = 0 && n.mantissa ≥ 0 then some n.mantissa.toNat else none
+      | _ => none
+    pure (.applyOperator (← fldN j "h") (← getL getOptCQ (← fld j "ghosts"))
+      (← parseCls (← fldS j "cls")) out (← fldCQs j "vals"))
+  | "derive" => do
+    pure (.derive (← fldN j "h") (← parseCls (← fldS j "cls")) (← fldB j "cplx") (← fldCQs j "vals"))
+  | "applyFn" => do
+    let out : Option Nat := match fldOpt j "out" with
+      | some (.num n) => if n.exponent = 0 && n.mantissa ≥ 0 then some n.mantissa.toNat else none
+      | _ => none
+    pure (.applyFn (← fldN j "h") out (← fldCQs j "vals"))
   | "mkColl" => do pure (.mkColl (← fldNs j "hs") (← fldB j "copy") (← optDT j "dt"))
   | "slice" => do pure (.slice (← fldN j "c") (← fldNs j "idx"))
   | "append" => do pure (.append (← fldN j "c") (← fldNs j "hs"))
@@ -152,17 +193,24 @@ def aliasPairs (s : State CQ) : List Json :=
         some (Json.arr #[toJson i, toJson j, toJson ((b.view.off : Int) - (a.view.off : Int))])
       else none))
 
+/-- objects whose `data` array (`_data_valid`) is not carved from their current padded array
+(`State.dviews`; empty in every reachable state: theorem `data_is_live_view`) -/
+def staleData (s : State CQ) : List Nat :=
+  (s.objs.zipIdx).filterMap (fun (o, i) => if s.dviews[i]? == some o.view then none else some i)
+
 def replay (G : List Grid) : State CQ → List Snap → List (Op CQ) → List Json
   | _, _, [] => []
   | s, prev, op :: ops =>
     match step G s op with
     | .error e =>
       Json.mkObj [("err", Json.str (showErr e)), ("n", toJson s.objs.length),
-        ("ch", Json.arr #[]), ("al", Json.arr (aliasPairs s).toArray)] :: replay G s prev ops
+        ("ch", Json.arr #[]), ("al", Json.arr (aliasPairs s).toArray),
+        ("stale", toJson (staleData s))] :: replay G s prev ops
     | .ok s' =>
       let snap := snapshot s'
       Json.mkObj [("err", Json.null), ("n", toJson s'.objs.length),
-        ("ch", Json.arr (changed prev snap).toArray), ("al", Json.arr (aliasPairs s').toArray)]
+        ("ch", Json.arr (changed prev snap).toArray), ("al", Json.arr (aliasPairs s').toArray),
+        ("stale", toJson (staleData s'))]
         :: replay G s' snap ops
 
 /-- {"grids":[{"mask":"0110","dim":1},..],"ops":[..]} -> one record per operation -/
